@@ -1,6 +1,6 @@
 (** * C09L: predict_win is a probability distribution that respects symmetry and skill.
 
-    Under [gf_sym] the result of [predict_win] has one uniform description, for two teams
+    Under [gc_sym] the result of [predict_win] has one uniform description, for two teams
     and for more: the value of team [x] is
       [Hval beta k l x = (sum_{y in l} w x y  -  w x x) / (n (n-1) / 2)],
     [w x y = Phi ((Tmu x - Tmu y) / sqrt (k beta^2 + Tvar x + Tvar y))] ([C12L.win_term]),
@@ -92,7 +92,7 @@ Qed.
 
 Section C09.
 Variables Phi Phiinv : R -> R.
-Hypothesis GF : GaussFacts Phi Phiinv.
+Hypothesis GF : GaussCDF Phi Phiinv.
 Local Instance RN : Num R := RNum Phi Phiinv.
 
 Notation w := (win_term Phi).
@@ -102,14 +102,14 @@ Definition Hval (beta : R) (k : nat) (l : list (list (rating R))) (x : list (rat
 
 (** *** facts about one pairwise term *)
 Lemma w_range beta k x y : 0 < w beta k x y < 1.
-Proof. unfold win_term. apply (gf_range _ _ GF). Qed.
+Proof. unfold win_term. apply (gc_range _ _ GF). Qed.
 
 Lemma w_compl beta k x y : w beta k x y + w beta k y x = 1.
 Proof.
   unfold win_term. rewrite (pscale_sym beta k x y).
   replace ((Tmu y - Tmu x) / pscale beta k x y) with (- ((Tmu x - Tmu y) / pscale beta k x y))
     by (unfold Rdiv; ring).
-  rewrite (gf_sym _ _ GF). lra.
+  rewrite (gc_sym _ _ GF). lra.
 Qed.
 
 Lemma w_ext beta k x x' y y' :
